@@ -81,6 +81,7 @@ fn plan_c01(thorough: bool) -> Plan {
         cases.extend(enum_commit_histories(2, 6, 2, &a_full, &mk_case("empty", vec!["U1"], &cfg, "values", false)));
     }
     cases.extend(crate::plans2::exact_fit_leaf_family("values"));
+    cases.extend(crate::plans2::overflow_boundary_family("values", thorough));
     // (b) all single batches over four keys with a reduced alphabet, then one follow-up batch
     let a_small = acts(&[("w", Some(1)), ("w", Some(1333)), ("d", None), ("rw", Some(40))]);
     cases.extend(enum_commit_histories(1, 4, 4, &a_small, &mk_case("empty", vec!["U4"], &cfg, "values", false)));
@@ -193,7 +194,7 @@ fn plan_c01(thorough: bool) -> Plan {
     sort_by_bound(&mut cases);
     let mut p = Plan::new(
         cases,
-        "histx: every history of D commits whose batches deviate from the empty batch in at most B key actions (bound = number of deviations), over colliding key universes, from seed states {empty, leaf(6x1300B), branch(600 keys sharing 30 bytes), bulk(1500 keys), ovf(5MiB value), ovf2(two 70000-byte and one 61381-byte value), mixed2(700 clustered + 60 scattered keys), pfx(450 keys sharing 247 bits + 3 far keys: a branch node built with stopped prefix compression; macro action 'delete a run of 100..400 cluster keys' + in-place rewrite of a far key, every seed key audited); queue-shaped workloads on wide / branch (the lowest keys deleted in runs of 1..7 while a far leaf is rewritten, three commits, every seed key audited); one commit right after a cold reopen mixing reads / rewrites / deletes in the first of two leaves with inserts of new keys below, between and above everything on disk (rollback off, leaf cache 0 / 4 MiB, 1 / 3 workers: the leaf stage finds some leaves cached and fetches the others); exact-fit leaves (cells of 34+len bytes summing to every total 4090..4100 around the leaf body size 4094, as three near-maximum or four ~1000-byte cells, alone or followed by two more cells, in one commit / with the exact cell inserted late / overwritten to size)}; action alphabet = read, delete, read-then-delete, write of sizes {0,1,1332,1333,5000,61380,61381,70000}, read-then-write; reopen inserted at every position for a sub-family; after every commit Nomt::read and Session::read of every universe key are compared with a BTreeMap model. Non-trivial = at least one write was committed; distinct = distinct (case, final-state digest).",
+        "histx: every history of D commits whose batches deviate from the empty batch in at most B key actions (bound = number of deviations), over colliding key universes, from seed states {empty, leaf(6x1300B), branch(600 keys sharing 30 bytes), bulk(1500 keys), ovf(5MiB value), ovf2(two 70000-byte and one 61381-byte value), mixed2(700 clustered + 60 scattered keys), pfx(450 keys sharing 247 bits + 3 far keys: a branch node built with stopped prefix compression; macro action 'delete a run of 100..400 cluster keys' + in-place rewrite of a far key, every seed key audited); queue-shaped workloads on wide / branch (the lowest keys deleted in runs of 1..7 while a far leaf is rewritten, three commits, every seed key audited); one commit right after a cold reopen mixing reads / rewrites / deletes in the first of two leaves with inserts of new keys below, between and above everything on disk (rollback off, leaf cache 0 / 4 MiB, 1 / 3 workers: the leaf stage finds some leaves cached and fetches the others); exact-fit leaves (cells of 34+len bytes summing to every total 4090..4100 around the leaf body size 4094, as three near-maximum or four ~1000-byte cells, alone or followed by two more cells, in one commit / with the exact cell inserted late / overwritten to size); overflow-size boundaries (one key written with s1, overwritten with s2, deleted, reopened, for pairs of sizes from {1332,1333,4091,4092,4093,4096,4097,8184,8185,61380,61381,65468,65469,65472,65473} — quick: every size first and second, thorough: every ordered pair)}; action alphabet = read, delete, read-then-delete, write of sizes {0,1,1332,1333,5000,61380,61381,70000}, read-then-write; reopen inserted at every position for a sub-family; after every commit Nomt::read and Session::read of every universe key are compared with a BTreeMap model. Non-trivial = at least one write was committed; distinct = distinct (case, final-state digest).",
     );
     p.budget_s = if thorough { 1500 } else { 55 };
     p.assumptions = vec![
@@ -248,7 +249,20 @@ fn plan_c02(thorough: bool) -> Plan {
         }
         let a2 = acts(&[("w", Some(1)), ("d", None)]);
         base.extend(enum_commit_histories(2, 6, 3, &a2, &mk_case("empty", vec!["PAIRS:3"], &cfg, "root", true)));
-        cases.extend(via_overlays(&base, true));
+        let chains = via_overlays(&base, true);
+        // the chains once more with warm-up on (the warm-up worker of a session on an uncommitted
+        // overlay seeks through the ancestors' pages) and with three commit workers (a worker
+        // without keys finishes last and handles the root page)
+        for (key, val, every) in [("warm_up", json!(true), if thorough { 1 } else { 2 }), ("cc", json!(3), if thorough { 1 } else { 3 })] {
+            for (i, c) in chains.iter().enumerate() {
+                if i % every == 0 {
+                    let mut n = c.clone();
+                    n["cfg"][key] = val.clone();
+                    cases.push(n);
+                }
+            }
+        }
+        cases.extend(chains);
     }
     // worker counts over keys spread over several root-child ranges
     for cc in if thorough { vec![2usize, 3, 4, 64] } else { vec![3usize] } {
@@ -276,7 +290,12 @@ fn plan_c02(thorough: bool) -> Plan {
                 json!({"ovc": 1}),
                 json!({"ovc": 2}),
             ];
-            cases.push(json!({"bound": 3, "seed": "round", "universe": ["ROUND"], "cfg": cfg.to_json(), "audit": "root", "ops": ops, "final_reopen": true}));
+            for (wu, cc) in [(false, 1usize), (true, 1), (false, 3), (true, 3)] {
+                let mut c2 = cfg.clone();
+                c2.warm_up = wu;
+                c2.cc = cc;
+                cases.push(json!({"bound": 3, "seed": "round", "universe": ["ROUND"], "cfg": c2.to_json(), "audit": "root", "ops": ops, "final_reopen": true}));
+            }
         }
     }
     add_quiet(&mut cases, if thorough { 1 } else { 3 });
@@ -287,7 +306,7 @@ fn plan_c02(thorough: bool) -> Plan {
     sort_by_bound(&mut cases);
     let mut p = Plan::new(
         cases,
-        "histx: every history of D commits with at most B key actions {insert, delete, overwrite} over (i) a 14-key family diverging at bits {0,1,5,6,7,11,12,13,17,18,127,254,255} and (ii) clusters of 18..22 keys below one depth-2 and one depth-3 merkle page (page-elision threshold from both sides), for 1..64 commit workers, and (iii) the tombstone family (16/32-bucket tables × 16 bitbox seeds, 10 pages, every page / adjacent pair of pages removed, cold reopen, re-insert, reopen), (iiib) roots of sessions on overlay chains in which an ancestor inserts 'round' keys (prefix·1·0…0) and a descendant writes into the sub-trie on their left whose only leaf is on disk, (iiic) the 2-commit cluster and key-pair (fresh depth-1 pages) histories prepared as a chain of two overlays (the second built on the uncommitted first) and committed in order, (iiid) 'quiet' copies (no reads between the operations) of every second history that starts from a seed state, (iiie) the sparse-cluster promotion family — seeds of 18/19 leaves under one 12-bit prefix with a lone leaf L high in the elided depth-2 page, universe {L, three absent keys sharing 14/16/18 bits with L, two fillers, two present keys}, all 3-commit histories with ≤B' actions plus 'chain and promotion in one commit, then every single action on it', each with the page pool handing out buffers full of 0xA5, of 0x5A and as they come (verif knob: the contents of an allocated page are undefined) — and a 1-in-16 / 1-in-17 sample of all histories once more with poisoned buffers, and (iv) every schedule with ≤2 (thorough: all) preemptions of the three merkle update workers of one commit (worker start, publishing of child-page roots, hand-back of the write pass, root-page phase) under the controlled scheduler; FinishedSession::root, Nomt::root after each commit and after a final reopen are compared with an independent from-scratch recursive trie over the model's key-value set. Non-trivial = at least one write committed. Also ALL schedules (a few hundred per batch) of the three beatree leaf-stage workers of one commit whose ranges are three consecutive leaves that all fall below the merge threshold (three batches: two of three values deleted / values shrunk and last leaf deleted / middle leaf deleted), i.e. of the extend-range protocol between neighbouring workers (poll left neighbour, send request, wait for response, wait for left neighbour to conclude, join in completion order): after every schedule the values, root and proofs equal the model and the directory decodes (independent decoder) to exactly the model with every page accounted for. And the branch stage: seed with two bottom branch nodes, one commit deleting 420–440 consecutive keys (≈ 140 leaves) so that the first node falls below the merge threshold and its worker requests nodes from its right neighbour, with three leaf-stage workers running under the scheduler as well (2 batches; every schedule with 0 preemptions quick, ≤1 and a capped ≤2 thorough).",
+        "histx: every history of D commits with at most B key actions {insert, delete, overwrite} over (i) a 14-key family diverging at bits {0,1,5,6,7,11,12,13,17,18,127,254,255} and (ii) clusters of 18..22 keys below one depth-2 and one depth-3 merkle page (page-elision threshold from both sides), for 1..64 commit workers, and (iii) the tombstone family (16/32-bucket tables × 16 bitbox seeds, 10 pages, every page / adjacent pair of pages removed, cold reopen, re-insert, reopen), (iiib) roots of sessions on overlay chains in which an ancestor inserts 'round' keys (prefix·1·0…0) and a descendant writes into the sub-trie on their left whose only leaf is on disk, (iiic) the 2-commit cluster and key-pair (fresh depth-1 pages) histories prepared as a chain of two overlays (the second built on the uncommitted first) and committed in order — also with warm-up on (every batch key warmed up by the session on the uncommitted overlay) and with three commit workers, (iiid) 'quiet' copies (no reads between the operations) of every second history that starts from a seed state, (iiie) the sparse-cluster promotion family — seeds of 18/19 leaves under one 12-bit prefix with a lone leaf L high in the elided depth-2 page, universe {L, three absent keys sharing 14/16/18 bits with L, two fillers, two present keys}, all 3-commit histories with ≤B' actions plus 'chain and promotion in one commit, then every single action on it', each with the page pool handing out buffers full of 0xA5, of 0x5A and as they come (verif knob: the contents of an allocated page are undefined) — and a 1-in-16 / 1-in-17 sample of all histories once more with poisoned buffers, and (iv) every schedule with ≤2 (thorough: all) preemptions of the three merkle update workers of one commit (worker start, publishing of child-page roots, hand-back of the write pass, root-page phase) under the controlled scheduler; FinishedSession::root, Nomt::root after each commit and after a final reopen are compared with an independent from-scratch recursive trie over the model's key-value set. Non-trivial = at least one write committed. Also ALL schedules (a few hundred per batch) of the three beatree leaf-stage workers of one commit whose ranges are three consecutive leaves that all fall below the merge threshold (three batches: two of three values deleted / values shrunk and last leaf deleted / middle leaf deleted), i.e. of the extend-range protocol between neighbouring workers (poll left neighbour, send request, wait for response, wait for left neighbour to conclude, join in completion order): after every schedule the values, root and proofs equal the model and the directory decodes (independent decoder) to exactly the model with every page accounted for. And the branch stage: seed with two bottom branch nodes, one commit deleting 420–440 consecutive keys (≈ 140 leaves) so that the first node falls below the merge threshold and its worker requests nodes from its right neighbour, with three leaf-stage workers running under the scheduler as well (2 batches; every schedule with 0 preemptions quick, ≤1 and a capped ≤2 thorough).",
     );
     p.budget_s = if thorough { 1500 } else { 55 };
     p.assumptions = vec!["collision resistance of the hasher (equal roots ⇔ equal tries)".into()];
@@ -356,6 +375,7 @@ fn plan_c16(thorough: bool) -> Plan {
     cases.extend(crate::plans2::tombstone_family("noproof", thorough));
     cases.extend(crate::plans2::sparse_cluster_promotion_family("noproof", thorough).into_iter().filter(|c| thorough || c["bound"].as_u64().unwrap_or(0) >= 2));
     cases.extend(crate::plans2::exact_fit_leaf_family("noproof"));
+    cases.extend(crate::plans2::overflow_boundary_family("noproof", thorough));
     set_all(&mut cases, "image", json!("c16"));
     for (h, t, b) in crash_histories(false).into_iter().chain(root_layer_histories(false)) {
         if b >= 3 || h["seed"] != "empty" {
@@ -390,6 +410,7 @@ fn plan_c19(thorough: bool) -> Plan {
         c["audit"] = json!("noproof");
         c
     }));
+    cases.extend(crate::plans2::overflow_boundary_family("noproof", thorough));
     set_all(&mut cases, "image", json!("c19"));
     for (h, t, b) in crash_histories(false).into_iter().chain(root_layer_histories(false)) {
         if b >= 3 || h["seed"] != "empty" {
